@@ -87,6 +87,13 @@ CLAIMS = {
          "failure when everything reported is defined) is not proved (partial) but evaluated on the implementation. Tied to references.rs and "
          "objects.rs by generated programs with random names in every syntactic position: reference sets and execution outcomes against random "
          "contexts are compared with the model, and all clauses of the property are evaluated on the implementation's own answers."),
+ "C15": ("PARTIAL. Theorems: + - == < on durations act on the exact nanosecond counts with an overflow error outside signed 64 bits; "
+         "parse_duration accepts a string only if the whole of it is an optionally signed '0' or a non-empty sequence of terms, each a decimal number "
+         "(no exponent, inf, nan, inner sign or space) immediately followed by one of h m s ms us (or micro sign) ns - proved from the structure of the "
+         "scanner; the listed malformed spellings are rejected; the rendering of -d is '-' followed by that of d. That the rendering is Go's canonical one and "
+         "that duration(string(d)) == d for every d are not unbounded theorems: they are evaluated on the implementation against an independent "
+         "implementation of Go's algorithm for a boundary set and random log-uniform durations of both signs, and proved by computation on samples. "
+         "The model transcribes duration.rs after its repair (exact integer parser)."),
  "C06": ("Theorems that Eval.eval (a structural Fixpoint transcribing Value::resolve) returns the left operand's outcome "
          "and host-call log alone when && / || are decided by it, evaluates exactly one branch of ?:, and propagates a "
          "left error - for every context and operand expression, hence at every depth and inside macro bodies. Tied to the "
